@@ -737,6 +737,26 @@ func plans(seed uint64, tier string) []Plan {
 	add(nMem, lib.EngMem)
 	add(nBadger, lib.EngBadger)
 	add(nTikv, lib.EngTiKV)
+	// the same fault grid behind the front ends a deployment has (fronts.go): the storage metrics decorator over the
+	// fault injector, and client writes entering through etcd.RPCServer.Txn. Appended after the plain plans so that
+	// their case numbers (and seeds) stay what they were.
+	nFront, nFrontOther := 16, 0
+	switch tier {
+	case "thorough":
+		nFront, nFrontOther = 120, 40
+	case "search":
+		nFront, nFrontOther = 60, 10
+	}
+	for _, f := range []string{frontMetrics, frontEtcd} {
+		for _, p := range corpus() {
+			p.Engine = f + "+" + lib.EngMem
+			p.Kind = p.Kind + "@" + p.Engine
+			ps = append(ps, p)
+		}
+		add(nFront, f+"+"+lib.EngMem)
+		add(nFrontOther, f+"+"+lib.EngTiKV)
+		add(nFrontOther, f+"+"+lib.EngBadger)
+	}
 	for i := range ps {
 		ps[i].ID = i
 		ps[i].Seed = seed*1000003 + uint64(i)*7919 + 17
